@@ -1,6 +1,7 @@
 package main
 
 import (
+	"crypto/sha1"
 	"runtime/debug"
 
 	"fmt"
@@ -693,7 +694,10 @@ func clauseLabel(c Clause, i int) string {
 	if c.Name != "" {
 		return c.Name
 	}
-	return fmt.Sprint(i)
+	// unlabelled clause: named by its text, so that inserting or removing another clause does not
+	// rename it in the ledger
+	h := sha1.Sum([]byte(strings.Join(strings.Fields(c.Src), " ")))
+	return fmt.Sprintf("c-%x", h[:3])
 }
 
 // verifyFunction generates all obligations of fn against its contract.
@@ -1222,6 +1226,46 @@ func firstReal(b *ssa.BasicBlock) ssa.Instruction {
 	return nil
 }
 
+// lastCallBefore: the callee of the last non-builtin call executed before the end of block p within
+// one iteration of the loop (walking up the dominator tree to the loop head). It names a back edge by
+// what the iteration did last rather than by an ordinal, so that adding or removing an unrelated
+// `continue` elsewhere in the loop does not rename the obligations of the other back edges.
+func lastCallBefore(li *loopInfo, p *ssa.BasicBlock) string {
+	for b := p; b != nil; b = b.Idom() {
+		for i := len(b.Instrs) - 1; i >= 0; i-- {
+			if c, ok := b.Instrs[i].(*ssa.Call); ok {
+				if _, isB := c.Call.Value.(*ssa.Builtin); isB && !c.Call.IsInvoke() {
+					continue
+				}
+				n := shortCallee(calleeName(&c.Call))
+				n = strings.NewReplacer(" ", "_", "/", ".").Replace(n)
+				return n
+			}
+		}
+		if b == li.head {
+			break
+		}
+	}
+	return "top"
+}
+
+func (fc *FuncCtx) backEdgeSuffix(li *loopInfo, p *ssa.BasicBlock) string {
+	d := lastCallBefore(li, p)
+	n, k := 0, 0
+	for _, q := range li.backs {
+		if lastCallBefore(li, q) == d {
+			if q == p {
+				k = n
+			}
+			n++
+		}
+	}
+	if n > 1 {
+		return fmt.Sprintf("@after:%s.%d", d, k)
+	}
+	return "@after:" + d
+}
+
 // backEdge checks invariant preservation and variant decrease on edge p -> head.
 func (fc *FuncCtx) backEdge(li *loopInfo, p *ssa.BasicBlock, ec string, st *State) {
 	b := li.head
@@ -1245,11 +1289,7 @@ func (fc *FuncCtx) backEdge(li *loopInfo, p *ssa.BasicBlock, ec string, st *Stat
 	}
 	suffix := ""
 	if len(li.backs) > 1 {
-		for i, q := range li.backs {
-			if q == p {
-				suffix = fmt.Sprintf("#%d", i)
-			}
-		}
+		suffix = fc.backEdgeSuffix(li, p)
 	}
 	for _, it := range li.strIters {
 		if tv, ok := fc.val[it]; ok {
